@@ -8,12 +8,22 @@ EXTENDS PipelineGraph
 AllSig == {"logs", "traces", "metrics", "profiles"}
 AllPairs  == AllSig \X AllSig
 SamePairs == {<<s, s>> : s \in AllSig}
-\* connector kinds by id: ca* every pair, cs* same signal only, cl* logs -> anything, cm* anything -> metrics
+\* connector kinds by id: ca* every pair, cs* same signal only, cl* logs -> anything, cm* anything -> metrics,
+\*   k<s><d>  EXACTLY the pair (s, d)          (s, d in l t m p = logs traces metrics profiles)
+\*   n<s><d>  every pair EXCEPT (s, d)
+\* The k / n families make the support table asymmetric across destinations for one source signal and across
+\* sources for one destination: for every ordered pair (s, d) there is a connector that supports (s, d) and none of
+\* (s, d'), (s', d), and one that supports all of those but not (s, d).  So every single entry of the 4x4 type-pair
+\* table of graph.go (connectorStability) decides validity / routing of some generated configuration.
+OnlyPair == [kll |-> <<"logs", "logs">>, klt |-> <<"logs", "traces">>, klm |-> <<"logs", "metrics">>, klp |-> <<"logs", "profiles">>, ktl |-> <<"traces", "logs">>, ktt |-> <<"traces", "traces">>, ktm |-> <<"traces", "metrics">>, ktp |-> <<"traces", "profiles">>, kml |-> <<"metrics", "logs">>, kmt |-> <<"metrics", "traces">>, kmm |-> <<"metrics", "metrics">>, kmp |-> <<"metrics", "profiles">>, kpl |-> <<"profiles", "logs">>, kpt |-> <<"profiles", "traces">>, kpm |-> <<"profiles", "metrics">>, kpp |-> <<"profiles", "profiles">>]
+AllBut   == [nll |-> <<"logs", "logs">>, nlt |-> <<"logs", "traces">>, nlm |-> <<"logs", "metrics">>, nlp |-> <<"logs", "profiles">>, ntl |-> <<"traces", "logs">>, ntt |-> <<"traces", "traces">>, ntm |-> <<"traces", "metrics">>, ntp |-> <<"traces", "profiles">>, nml |-> <<"metrics", "logs">>, nmt |-> <<"metrics", "traces">>, nmm |-> <<"metrics", "metrics">>, nmp |-> <<"metrics", "profiles">>, npl |-> <<"profiles", "logs">>, npt |-> <<"profiles", "traces">>, npm |-> <<"profiles", "metrics">>, npp |-> <<"profiles", "profiles">>]
 SupportDef == [c \in Conns |->
                  CASE c \in {"ca1", "ca2", "ca3"} -> AllPairs
                    [] c \in {"cs1", "cs2"}        -> SamePairs
                    [] c \in {"cl1"}               -> {<<"logs", t>> : t \in AllSig}
                    [] c \in {"cm1"}               -> {<<s, "metrics">> : s \in AllSig}
+                   [] c \in DOMAIN OnlyPair       -> {OnlyPair[c]}
+                   [] c \in DOMAIN AllBut         -> AllPairs \ {AllBut[c]}
                    [] OTHER                       -> AllPairs]
 
 Pipes2   == << <<"logs", "a">>, <<"traces", "a">> >>
@@ -23,6 +33,11 @@ Pipes4   == << <<"logs", "a">>, <<"logs", "b">>, <<"traces", "a">>, <<"traces", 
 Pipes4x  == << <<"logs", "a">>, <<"traces", "a">>, <<"metrics", "a">>, <<"profiles", "a">> >>
 Pipes6   == << <<"logs", "a">>, <<"logs", "b">>, <<"traces", "a">>, <<"traces", "b">>,
                <<"metrics", "a">>, <<"profiles", "a">> >>
+\* two pipelines of one signal + one of each other signal: the universes of the k<s>* / n<s>* connector families
+PipesSrcL == << <<"logs", "a">>, <<"logs", "b">>, <<"traces", "a">>, <<"metrics", "a">>, <<"profiles", "a">> >>
+PipesSrcT == << <<"traces", "a">>, <<"traces", "b">>, <<"logs", "a">>, <<"metrics", "a">>, <<"profiles", "a">> >>
+PipesSrcM == << <<"metrics", "a">>, <<"metrics", "b">>, <<"logs", "a">>, <<"traces", "a">>, <<"profiles", "a">> >>
+PipesSrcP == << <<"profiles", "a">>, <<"profiles", "b">>, <<"logs", "a">>, <<"traces", "a">>, <<"metrics", "a">> >>
 Pipes8   == << <<"logs", "a">>, <<"logs", "b">>, <<"traces", "a">>, <<"traces", "b">>,
                <<"metrics", "a">>, <<"metrics", "b">>, <<"profiles", "a">>, <<"profiles", "b">> >>
 =============================================================================
